@@ -299,7 +299,7 @@ def generate_transformation(angmom, cartesian_order, spherical_order, apply_from
     if not (
         len(spherical_order) == 2 * angmom + 1
         # Strip out "-" from the ordering to make sure the right components are there
-        and {x.replace("-", "") for x in spherical_order}
+        and {x[1:] if x.startswith("-") else x for x in spherical_order}
         == set(
             ["s{}".format(m) for m in range(angmom, 0, -1)]
             + ["c{}".format(m) for m in range(angmom + 1)]
